@@ -145,21 +145,38 @@ def decodeOpN (opc : Nat) : Res Nat :=
 /-- `CScriptOp.is_small_int` -/
 def isSmallInt (opc : Nat) : Bool := (0x51 ≤ opc ∧ opc ≤ 0x60) ∨ opc = 0
 
-/-- `CScriptOp.__new__(n)` against the 256-entry `_opcode_instances` list: Python list indexing,
-    negative indices count from the end; outside −256..255 the IndexError handler runs
-    `assert len(_opcode_instances) == n`, which passes for n = 256 only: that call appends and
-    returns CScriptOp(0x100) (and grows the module-level table, a state change this pure function
-    does not carry — Props/C08 `opcode_lookup_in_table` shows neither call site can reach it). -/
-def cscriptOpNew (n : Int) : Res Nat :=
-  if 0 ≤ n ∧ n < 256 then .ok n.toNat
-  else if -256 ≤ n ∧ n < 0 then .ok (n + 256).toNat
-  else if n = 256 then .ok 256
+/-- `CScriptOp.__new__(n)` against an `_opcode_instances` list of `size` entries (entry i is the
+    instance of value i): Python list indexing with negative indices counting from the end; outside
+    −size..size−1 the IndexError handler runs `assert len(_opcode_instances) == n`, which passes for
+    n = size only: that call appends the new instance and returns it.  Result: (value, new size). -/
+def cscriptOpNewSt (size : Nat) (n : Int) : Res (Nat × Nat) :=
+  if 0 ≤ n ∧ n < size then .ok (n.toNat, size)
+  else if -(size : Int) ≤ n ∧ n < 0 then .ok ((n + size).toNat, size)
+  else if n = size then .ok (size, size + 1)
   else .error assertionError
+
+/-- `CScriptOp(n)` against the table as the module leaves it (256 entries).  Props/C08
+    `opcode_lookup_in_table` shows that the two call sites never leave the table, so the table
+    keeps its 256 entries in every run of the modelled functions. -/
+def cscriptOpNew (n : Int) : Res Nat :=
+  match cscriptOpNewSt 256 n with
+  | .ok (v, _) => .ok v
+  | .error e => .error e
+
+/-- a sequence of `CScriptOp(n)` calls on a fresh module: the values returned (or the error of each call) -/
+def cscriptOpNewSeq : Nat → List Int → List (Res Nat)
+  | _, [] => []
+  | size, n :: r =>
+    match cscriptOpNewSt size n with
+    | .ok (v, size') => .ok v :: cscriptOpNewSeq size' r
+    | .error e => .error e :: cscriptOpNewSeq size r
 
 /-! ### CScript construction -/
 
 /-- `CScript.__coerce_instance`: `some` bytes for script elements; `none` = the element is returned
-    unchanged because no `isinstance` branch applies (str, None, float, …).  bool is an int. -/
+    unchanged because no `isinstance` branch applies and it is not bytes-like (str, None, float, …).
+    bool is an int.  A bytes-like object of another type (memoryview, array) is also returned unchanged,
+    and is then accepted as it is by `bytes.join` / `bytes.__add__`. -/
 def coerceInstance : Token → Res (Option Bytes)
   | .op n => if n < 256 then .ok (some [UInt8.ofNat n]) else .error .valueerr   -- bytes([other])
   | .int z =>
@@ -177,6 +194,7 @@ def coerceInstance : Token → Res (Option Bytes)
       match encodeOpN (if b then 1 else 0) with
       | .ok o => .ok (some [UInt8.ofNat o])
       | .error e => .error e
+  | .buffer b => .ok (some b)                 -- returned unchanged; bytes-like, so join/+ splice it in raw
   | .other => .ok none
 
 /-- `b''.join(gen)` first exhausts the generator (so every element is coerced, and the first
